@@ -159,6 +159,8 @@ struct Run {
     stash_calls: Vec<VerifServiceCall>,
     /// the order in which the protocol worked through the peers of the batch command of this step
     batch_order: Option<u64>,
+    /// events and calls of this step are printed by peer (several peers handled in an order nobody controls)
+    by_peer_step: bool,
 }
 
 fn newest_live(v: &[IoCtl]) -> Option<IoCtl> {
@@ -433,6 +435,15 @@ impl Run {
                 self.settle();
                 self.real_fired += before - self.notif.driver().timers_len();
             }
+            28 => {
+                // NEGOTIATION_TIMEOUT (10 s) of every substream in the HandshakeService really expires, and with
+                // it every 5 s timer armed so far
+                let before = self.notif.driver().timers_len();
+                std::thread::sleep(std::time::Duration::from_millis(10300));
+                self.by_peer_step = true;
+                self.settle();
+                self.real_fired += before;
+            }
             10 => {
                 let _ = self.handle.open_substream(peer).now_or_never();
             }
@@ -525,7 +536,7 @@ impl Run {
     }
 
     fn observe(&mut self, out: &mut Vec<u64>) {
-        if self.batch_order.is_some() {
+        if self.batch_order.is_some() || self.by_peer_step {
             self.events.sort_by_key(|e| e[1]);
         }
         out.push(self.events.len() as u64);
@@ -557,8 +568,8 @@ impl Run {
                 VerifServiceCall::ForceClose(peer) => call_rows.push([2, self.pidx(&peer) as u64, 0]),
             }
         }
-        if self.batch_order.is_some() {
-            // a batch command: events and calls of the step are printed sorted by peer (one each at most)
+        if self.batch_order.is_some() || self.by_peer_step {
+            // a batch command / timeouts of several peers: events and calls of the step are printed by peer
             call_rows.sort_by_key(|r| r[1]);
         }
         out.push((call_rows.len() + self.rets.len()) as u64);
@@ -617,7 +628,7 @@ fn run_case(c: &[u64]) -> Option<(Vec<u64>, Vec<u64>)> {
         return None;
     }
     for i in 0..nops {
-        if c[4 + 3 * i] > 27 || c[5 + 3 * i] >= NP as u64 {
+        if c[4 + 3 * i] > 28 || c[5 + 3 * i] >= NP as u64 {
             return None;
         }
     }
@@ -625,7 +636,7 @@ fn run_case(c: &[u64]) -> Option<(Vec<u64>, Vec<u64>)> {
     let dialable: Vec<PeerId> = (0..NP).filter(|i| mask >> i & 1 == 1).map(|i| peers[i]).collect();
     let cap = (mask >> 3) as usize;
     let lazy = cap > 0;
-    if lazy && (0..nops).any(|i| matches!(c[4 + 3 * i], 19 | 26 | 27)) || !lazy && (0..nops).any(|i| c[4 + 3 * i] == 25) {
+    if lazy && (0..nops).any(|i| matches!(c[4 + 3 * i], 19 | 26 | 27 | 28)) || !lazy && (0..nops).any(|i| c[4 + 3 * i] == 25) {
         return None;
     }
     let (notif, handle) = VerifBounded::new(
@@ -652,9 +663,10 @@ fn run_case(c: &[u64]) -> Option<(Vec<u64>, Vec<u64>)> {
         rets: Vec::new(),
         events: Vec::new(),
         real_fired: 0,
-        no_hook_timers: (0..nops).any(|i| c[4 + 3 * i] == 19),
+        no_hook_timers: (0..nops).any(|i| matches!(c[4 + 3 * i], 19 | 28)),
         stash_calls: Vec::new(),
         batch_order: None,
+        by_peer_step: false,
     };
     let mut ran: Vec<u64> = c.to_vec();
     let mut out = vec![1u64];
@@ -675,6 +687,7 @@ fn run_case(c: &[u64]) -> Option<(Vec<u64>, Vec<u64>)> {
         if let Some(code) = run.batch_order.take() {
             ran[6 + 3 * i] = code;
         }
+        run.by_peer_step = false;
     }
     Some((out, ran))
 }
@@ -969,7 +982,7 @@ pub fn main(args: &Args) {
             .unwrap_or((vec![0], c.to_vec()))
     };
     for c in stored.iter() {
-        let sleeps = c.len() >= 4 && (0..c[3] as usize).any(|i| c.get(4 + 3 * i) == Some(&19));
+        let sleeps = c.len() >= 4 && (0..c[3] as usize).any(|i| matches!(c.get(4 + 3 * i), Some(&19) | Some(&28)));
         if sleeps && !thorough && args.str("replay").is_none() {
             continue; // real 5 s sleeps: thorough tier only
         }
